@@ -113,13 +113,14 @@ def schedule_shape(kind, systag, m):
     npov = {2: 3, 3: 4, 4: 9}[d]
     nst = d * d
     per = {2: 2, 3: 3, 4: 4}[d]
+    g = min(npov, 4)
     if kind == "state":
-        return npov, per, npov
+        return npov, per, g
     if kind == "povm":
         return nst, m, d
     if kind == "gate":
-        return nst * npov, per, npov
-    return nst * npov, per * m, npov
+        return nst * npov, per, g
+    return nst * npov, per * m, g
 
 
 # ---------------------------------------------------------------- reference objects
